@@ -2,6 +2,7 @@ import Csverif.Driver.Path
 import Csverif.Driver.Storage
 import Csverif.Driver.Runnable
 import Csverif.Driver.Monitor
+import Csverif.Driver.Sched
 /- Driver: `driver <layer>` reads one operation per line on stdin and prints one canonical
    line per operation.  It executes the very definitions the theorems are about. -/
 open CS
@@ -31,5 +32,6 @@ def main (args : List String) : IO UInt32 := do
   | ["notify"] => loopStateless stdin stdout Driver.Runnable.stepNotify; stdout.flush; return 0
   | ["proto"] => loopState stdin stdout Driver.Runnable.pInit Driver.Runnable.stepProto; stdout.flush; return 0
   | ["monitor"] => loopStateless stdin stdout Driver.Monitor.step; stdout.flush; return 0
+  | ["sched"] => loopState stdin stdout ({} : Driver.Sched.DSt) Driver.Sched.step; stdout.flush; return 0
   | ["reach"] => IO.println (toString Runnable.reachableCodes); return 0
   | _ => IO.eprintln "usage: driver <layer>"; return 2
